@@ -53,6 +53,7 @@ type pki struct {
 	caKey, otherKey   *ecdsa.PrivateKey
 	serverPEM         map[int][2][]byte // leaf id (= serial number) -> cert PEM, key PEM
 	clients           map[string]tls.Certificate
+	pathCAPEM         map[int][]byte // CA k of the path-reuse stream
 }
 
 var thePKI *pki
@@ -98,7 +99,7 @@ func mkLeaf(cn string, serial int64, parent *x509.Certificate, parentKey *ecdsa.
 }
 func getPKI() *pki {
 	pkiOnce.Do(func() {
-		p := &pki{serverPEM: map[int][2][]byte{}, clients: map[string]tls.Certificate{}}
+		p := &pki{serverPEM: map[int][2][]byte{}, clients: map[string]tls.Certificate{}, pathCAPEM: map[int][]byte{}}
 		p.ca, p.caKey, p.caPEM = mkCA("verif CA", 1000)
 		p.otherCA, p.otherKey, p.otherCAPEM = mkCA("other CA", 1001)
 		for id := 1; id <= 8; id++ {
@@ -116,6 +117,17 @@ func getPKI() *pki {
 				panic(err)
 			}
 			p.clients[name] = pair
+		}
+		// CAs 1..3 of the path-reuse stream, each with one client certificate
+		for k := 1; k <= 3; k++ {
+			ca, key, pemBytes := mkCA(fmt.Sprintf("path CA %d", k), int64(1100+k))
+			p.pathCAPEM[k] = pemBytes
+			c, ck := mkLeaf(fmt.Sprintf("client of CA %d", k), int64(2100+k), ca, key, true)
+			pair, err := tls.X509KeyPair(c, ck)
+			if err != nil {
+				panic(err)
+			}
+			p.clients[fmt.Sprintf("CA%d", k)] = pair
 		}
 		thePKI = p
 	})
@@ -157,13 +169,14 @@ func tlsAttempt(addr string, min, max uint16, certKind string, deadline time.Dur
 	defer raw.Close()
 	raw.SetDeadline(time.Now().Add(deadline))
 	conn := tls.Client(raw, cfg)
-	if err := conn.Handshake(); err != nil {
-		return 0, 0
-	}
+	herr := conn.Handshake()
 	st := conn.ConnectionState()
 	var serial int64
 	if len(st.PeerCertificates) > 0 {
 		serial = st.PeerCertificates[0].SerialNumber.Int64()
+	}
+	if herr != nil {
+		return 0, serial // the server's certificate may have been seen before the handshake was refused
 	}
 	cl := &rpcClient{conn: conn, xid: 0x7150000, timeout: deadline}
 	xid, reply, err := cl.call(progNFS, 3, 0, nil)
